@@ -13,6 +13,17 @@ def main():
     grid_cases = 25 * 25 * 101 + 10 ** 4 + 25 * 24
     chk.add("states", grid_cases)
     chk.add("transitions", grid_cases)
+    # the same clause for ALL 16-bit (mg, eg) and phases 0..200, symbolically (Apalache); supplementary
+    apa_out = os.path.join(chk.outdir, "apalache")
+    try:
+        r = vlib.sh(["apalache-mc", "check", "--length=0", "--inv=BetweenClamped", "--out-dir=" + apa_out,
+                     os.path.join(vlib.SPEC, "BlendApa.tla")], timeout=240, cwd=chk.outdir)
+        outcome = "NoError" if "The outcome is: NoError" in r.stdout else ("Error" if "Found 1 error" in r.stdout else "unknown")
+    except Exception as ex:
+        outcome = "not-run: %s" % str(ex)[:80]
+    if outcome == "Error":
+        raise vlib.ToolError("Apalache refutes the clamped blend clause: specification error")
+    chk.cov["apalache_blend_all_i16_phase_0_200"] = outcome
     # positions: extreme material (TLC), material signatures (TLC), near-mate endings (TLC), walks, roots
     gx = vlib.tlc("Gen_Extreme", timeout=1200, xmx="2g")
     if gx.error:
